@@ -5,6 +5,28 @@ Theorems about `Impl/Value.lean` (heap model in unfolded form, `Region.copy`, `R
 `PixCoord.__eq__` = `np.allclose`, `Regions` slicing / list mutators).  Every statement is for
 all values (any nesting depth of compound regions, any array / dict / list sizes) and all
 mutation / edit sequences (any length).
+
+Index (clause of the property → theorem):
+
+* copy shares no mutable state        `copy_fresh`, `copy_disjoint`, `deepcopy_disjoint`
+* changing the copy never shows       `frame_seq` (induction over ANY mutation list),
+  in the original (and vice versa)     `mutate_copy_preserves_original`, `mutate_original_preserves_copy`
+* copy compares equal                 `copy_eq_full` ✗ `copy_eq_full_refuted` (F2c: CompoundSkyRegion),
+                                       `copy_eq_partial`, `copy_eq_polygon`, `deepcopy_eq`
+* copy(**changes) exact               `copy_changes_exact_full` ✗ `…_refuted` (F2c), `copy_changes_exact_partial`
+* equality reflexive                  `eq_refl_full` ✗ `eq_refl_full_refuted` (NaN, F11c), `eq_refl_partial`
+* equality symmetric                  `eq_symm_full` ✗ `eq_symm_full_refuted` (allclose band, F15),
+                                       `eq_symm_partial` (`neV_symm`), `close_asymm_iff` (the exact band)
+* equal across units                  `eq_unit_insensitive`, `eq_unit_insensitive_self`, `ne_quantity`
+* fails as soon as a field differs    `eq_true_all_fields`, `eq_detects_any_field`, `eq_detects_class`,
+                                       `table_distinct_classes`; `eq_detects_full` ✗ `…_refuted` (F22),
+                                       `eq_detects_partial`; vertex count: `eq_detects_vertex_count_full`
+                                       ✗ two refutations (F22 raise, F22b broadcast), `ne_vertex_count_partial`;
+                                       leaves: `pix_outside_tolerance`, `pix_inside_tolerance`, `ne_number`,
+                                       `neDict_value`, `neDict_missing`, `neDict_size`
+* equality sees content only          `neV_norm`, `eqRegion_congr`
+* slices / copies of region lists     `slice_copy_independent`, `slice_new_objects`, `copy_new_objects`,
+                                       `slice_items_shared`, `source_edits_leave_slice`
 -/
 import RegionsVerif.Impl.Value
 import Mathlib.Data.List.Basic
@@ -12,10 +34,20 @@ import Mathlib.Data.List.Perm.Subperm
 import Mathlib.Tactic.Linarith
 import Mathlib.Tactic.Ring
 
+set_option linter.unusedSimpArgs false
+set_option linter.unusedVariables false
+set_option linter.unusedTactic false
+set_option linter.unreachableTactic false
+
 namespace RegionsVerif.Props.C16
 open RegionsVerif.Impl.Value
 
 /-! ## A. the heap: identities, deep copies, writes -/
+
+/-- the attributes of an object. -/
+def fieldsOf : V → Fields
+  | .node _ _ fs => fs
+  | .atom _ => .nil
 
 mutual
 theorem ids_shift (n : Nat) : ∀ v : V, (v.shift n).ids = v.ids.map (· + n)
@@ -872,12 +904,16 @@ def eq_detects_full : Prop :=
     neV t va vb ≠ .ok false →
     eqRegion t (.node i (.region c) fa) (.node j (.region c) fb) = .ok false
 
-/-- two polygon regions (ids `i`…): vertices `xs, ys`, empty meta / visual. -/
+/-- `PixCoord(xs, ys)` with array coordinates. -/
+def arrPix (i : Nat) (xs ys : List ℚ) : V :=
+  .node i .pixcoord
+    (.cons "x" (.node (i + 1) .array (listItems (xs.map fun q => V.atom (.num (.fin q)))))
+    (.cons "y" (.node (i + 2) .array (listItems (ys.map fun q => V.atom (.num (.fin q))))) .nil))
+
+/-- `PolygonPixelRegion(PixCoord(xs, ys))` with empty meta / visual (compared attributes only). -/
 def polyPix (i : Nat) (xs ys : List ℚ) : V :=
   .node i (.region "PolygonPixelRegion")
-    (.cons "vertices" (.node (i + 1) .pixcoord
-        (.cons "x" (.node (i + 2) .array (listItems (xs.map fun q => V.atom (.num (.fin q)))))
-        (.cons "y" (.node (i + 3) .array (listItems (ys.map fun q => V.atom (.num (.fin q))))) .nil)))
+    (.cons "vertices" (arrPix (i + 1) xs ys)
     (.cons "meta" (.node (i + 4) .rmeta .nil) (.cons "visual" (.node (i + 5) .rvisual .nil) .nil)))
 
 def tolNumpy : Tol := ⟨1 / 100000, 1 / 100000000⟩
@@ -887,15 +923,8 @@ does not answer `False`, it raises `ValueError`. -/
 theorem eq_detects_full_refuted : ¬ eq_detects_full := by
   intro h
   have := h tolNumpy 0 10 "PolygonPixelRegion"
-    (match polyPix 0 [0, 1, 2] [0, 1, 0] with | .node _ _ fs => fs | _ => .nil)
-    (match polyPix 10 [0, 1, 2, 3] [0, 1, 0, 1] with | .node _ _ fs => fs | _ => .nil)
-    "vertices"
-    (.node 1 .pixcoord
-        (.cons "x" (.node 2 .array (listItems ([0, 1, 2].map fun q => V.atom (.num (.fin q)))))
-        (.cons "y" (.node 3 .array (listItems ([0, 1, 0].map fun q => V.atom (.num (.fin q))))) .nil)))
-    (.node 11 .pixcoord
-        (.cons "x" (.node 12 .array (listItems ([0, 1, 2, 3].map fun q => V.atom (.num (.fin q)))))
-        (.cons "y" (.node 13 .array (listItems ([0, 1, 0, 1].map fun q => V.atom (.num (.fin q))))) .nil)))
+    (fieldsOf (polyPix 0 [0, 1, 2] [0, 1, 0])) (fieldsOf (polyPix 10 [0, 1, 2, 3] [0, 1, 0, 1]))
+    "vertices" (arrPix 1 [0, 1, 2] [0, 1, 0]) (arrPix 11 [0, 1, 2, 3] [0, 1, 0, 1])
     (by decide) (by decide) (by decide) (by decide)
   revert this
   decide
@@ -1239,11 +1268,6 @@ theorem deepcopy_eq (t : Tol) (bound next : Nat) (r : V) :
   · exact eqRegion_congr t _ _ _ _ (by simp [deepcopy, norm_shift]) rfl
 
 
-/-- the attributes of an object. -/
-def fieldsOf : V → Fields
-  | .node _ _ fs => fs
-  | .atom _ => .nil
-
 theorem ofList_get? : ∀ (l : List (String × V)) (key : String),
     (Fields.ofList l).get? key = l.lookup key
   | [], _ => rfl
@@ -1545,7 +1569,7 @@ theorem copy_eq_partial (c : ClassInfo) (hc : c ∈ classTable) (hctor : c.ctor 
     (hrule : c.metaRule ≠ .dropIfGiven) (t : Tol)
     (bound next i : Nat) (fa : Fields) (r' : V) (n' : Nat)
     (h : copyRegion bound next (.node i (.region c.name) fa) [] = .ok (r', n'))
-    (hpres : ∀ key ∈ cmpKeys c.name, ∃ v, fa.get? key = some v)
+    (hpres : ∀ key ∈ cmpKeys c.name, (fa.get? key).isSome = true)
     (hdm : isDictNode (fa.getD "meta" (.atom .none)) = true)
     (hdv : isDictNode (fa.getD "visual" (.atom .none)) = true)
     (hself : eqRegion t (.node i (.region c.name) fa) (.node i (.region c.name) fa) = .ok true) :
@@ -1583,7 +1607,7 @@ theorem copy_eq_partial (c : ClassInfo) (hc : c ∈ classTable) (hctor : c.ctor 
     have hfirst := huniq kv hkv (by rw [← hkeys]; exact hk)
     obtain ⟨v, hg, hn⟩ := hex kv.1 hk
     rw [hfirst] at hg; cases hg
-    obtain ⟨va, hga⟩ := hpres kv.1 hk
+    obtain ⟨va, hga⟩ := Option.isSome_iff_exists.mp (hpres kv.1 hk)
     refine ⟨va, hga, ?_⟩
     obtain ⟨v1, hg1, hn1⟩ := hall (kv.1, va) (get?_mem fa kv.1 va hga) hk
     simp only at hg1 hn1
@@ -1620,7 +1644,7 @@ def wf : V → Bool
   | .atom a => cmpAtom (.atom a)
   | .node _ k fs =>
     match k with
-    | .region c => decide ((fs.keys.filter (cmpKeys c).contains).Nodup) && wfF (cmpKeys c) fs
+    | .region c => decide (fs.keys.filter (cmpKeys c).contains = cmpKeys c) && wfF (cmpKeys c) fs
     | .pixcoord =>
       match fs.get? "x", fs.get? "y" with
       | some (.atom (.num _)), some (.atom (.num _)) => true
@@ -1839,6 +1863,21 @@ theorem all_exact_self (l : List Num) (h : ∀ x ∈ l, ∃ q, x = Num.fin q) :
     bcastAll (fun a b => !(a.ne b)) l l = .ok true :=
   bcastAll_self _ l (fun x hx => by obtain ⟨q, rfl⟩ := h x hx; simp [Num.ne])
 
+theorem table_keys_nodup : ∀ c ∈ classTable, (c.params ++ ["meta", "visual"]).Nodup := by
+  decide +kernel
+
+theorem classInfo?_mem (cls : String) (c : ClassInfo) (h : classInfo? cls = some c) :
+    c ∈ classTable ∧ c.name = cls := by
+  unfold classInfo? at h
+  exact ⟨List.mem_of_find?_eq_some h, by simpa using List.find?_some h⟩
+
+/-- the compared attribute names of any class are distinct. -/
+theorem cmpKeys_nodup (cls : String) : (cmpKeys cls).Nodup := by
+  unfold cmpKeys paramsOf
+  cases h : classInfo? cls with
+  | none => decide
+  | some c => exact table_keys_nodup c (classInfo?_mem cls c h).1
+
 mutual
 /-- `v != v` is `False` for every well-formed NaN-free value (any nesting of compounds, any
 array / dict / list sizes), for any non-negative tolerances. -/
@@ -1855,7 +1894,7 @@ theorem neV_self (t : Tol) (hr : 0 ≤ t.rtol) (ha : 0 ≤ t.atol) :
       have hl : eqLoop t (cmpKeys c) fs fs = .ok true := by
         apply eqLoop_all
         intro kv hkv hk
-        refine ⟨kv.2, get?_of_nodup _ fs kv.1 kv.2 hw.1 hkv (by simpa using hk), ?_⟩
+        refine ⟨kv.2, get?_of_nodup _ fs kv.1 kv.2 (hw.1 ▸ cmpKeys_nodup c) hkv (by simpa using hk), ?_⟩
         exact loop_self t hr ha (cmpKeys c) fs hw.2 hn kv hkv hk
       simp [neV, isInstance_self, hl]
     | pixcoord =>
@@ -1977,5 +2016,1211 @@ theorem loop_self (t : Tol) (hr : 0 ≤ t.rtol) (ha : 0 ≤ t.atol) (keys : List
       · exact neV_self t hr ha v hc hn.1
     · exact loop_self t hr ha keys r hw.2 hn.2 kv h hk
 end
+
+
+/-! ### concrete regions used as witnesses and non-vacuity examples -/
+
+def scalarPix (i : Nat) (x y : Num) : V :=
+  .node i .pixcoord (.cons "x" (.atom (.num x)) (.cons "y" (.atom (.num y)) .nil))
+
+def wMeta (i : Nat) : V := .node i .rmeta (.cons "label" (.atom (.str "a")) .nil)
+def wVisual (i : Nat) : V := .node i .rvisual (.cons "color" (.atom (.str "red")) .nil)
+
+/-- `CirclePixelRegion(PixCoord(x, y), r, meta={'label': 'a'}, visual={'color': 'red'})`. -/
+def wCircle (i : Nat) (x y r : Num) : V :=
+  .node i (.region "CirclePixelRegion")
+    (.cons "center" (scalarPix (i + 1) x y) (.cons "radius" (.atom (.num r))
+    (.cons "meta" (wMeta (i + 2)) (.cons "visual" (wVisual (i + 3)) .nil))))
+
+def quantity (i : Nat) (v : Num) (unit : String) (factor : ℚ) : V :=
+  .node i .quantity (.cons "value" (.atom (.num v)) (.cons "unit" (.atom (.str unit))
+    (.cons "factor" (.atom (.num (.fin factor))) .nil)))
+
+def skyCoord (i : Nat) (frame : String) (lon lat : List ℚ) : V :=
+  .node i .skycoord (.cons "frame" (.atom (.str frame))
+    (.cons "lon" (.node (i + 1) .array (listItems (lon.map fun q => V.atom (.num (.fin q)))))
+    (.cons "lat" (.node (i + 2) .array (listItems (lat.map fun q => V.atom (.num (.fin q)))))
+    (.cons "scalar" (.atom (.bool true)) .nil))))
+
+/-- `CircleSkyRegion(SkyCoord(lon, lat), radius, meta={'label': 'a'}, visual={'color': 'red'})`. -/
+def wCircleSky (i : Nat) (lon lat : ℚ) (radius : V) : V :=
+  .node i (.region "CircleSkyRegion")
+    (.cons "center" (skyCoord (i + 1) "icrs" [lon] [lat]) (.cons "radius" radius
+    (.cons "meta" (wMeta (i + 4)) (.cons "visual" (wVisual (i + 5)) .nil))))
+
+/-- `c1 | c2` for two sky circles: `meta` / `visual` ARE `region1.meta` / `region1.visual`
+(the same objects, ids 5 and 6). -/
+def wCompoundSky : V :=
+  .node 0 (.region "CompoundSkyRegion")
+    (.cons "region1" (wCircleSky 1 10 20 (quantity 7 (.fin 1) "deg" 1))
+    (.cons "region2" (wCircleSky 10 11 21 (quantity 17 (.fin 30) "arcmin" (1 / 60)))
+    (.cons "operator" (.atom (.fn "or_"))
+    (.cons "meta" (wMeta 5) (.cons "visual" (wVisual 6) .nil)))))
+
+/-! ### reflexivity: full / refuted / partial -/
+
+/-- FULL-STRENGTH clause "equality is reflexive": every well-formed region equals itself. -/
+def eq_refl_full : Prop :=
+  ∀ (t : Tol), 0 ≤ t.rtol → 0 ≤ t.atol → ∀ (i : Nat) (c : String) (fs : Fields),
+    wf (.node i (.region c) fs) = true →
+    eqRegion t (.node i (.region c) fs) (.node i (.region c) fs) = .ok true
+
+/-- refuted on the model of the current code (finding F11c): a circle whose centre has a NaN
+coordinate (`PixCoord(nan, 2)` is accepted) is not equal to itself. -/
+theorem eq_refl_full_refuted : ¬ eq_refl_full := by
+  intro h
+  have := h tolNumpy (by decide +kernel) (by decide +kernel) 0 "CirclePixelRegion"
+    (fieldsOf (wCircle 0 .nan (.fin 2) (.fin 3))) (by decide +kernel)
+  revert this
+  decide +kernel
+
+/-- **eq_refl** (partial): every well-formed region WITHOUT NaN equals itself — any class, any
+nesting of compound regions, any polygon size, any meta / visual content. -/
+theorem eq_refl_partial (t : Tol) (hr : 0 ≤ t.rtol) (ha : 0 ≤ t.atol) (i : Nat) (c : String)
+    (fs : Fields) (hw : wf (.node i (.region c) fs) = true)
+    (hn : noNaN (.node i (.region c) fs) = true) :
+    eqRegion t (.node i (.region c) fs) (.node i (.region c) fs) = .ok true := by
+  have h := neV_self t hr ha _ hw hn
+  simp only [neV, isInstance_self, Bool.not_true, Bool.false_eq_true, if_false, ne_eq,
+    not_true_eq_false] at h
+  rw [eqRegion_node]
+  simp only [isInstance_self, Bool.not_true, Bool.false_eq_true, if_false, ne_eq,
+    not_true_eq_false]
+  cases hl : eqLoop t (cmpKeys c) fs fs with
+  | error e => rw [hl] at h; cases h
+  | ok r =>
+    rw [hl] at h
+    cases r with
+    | true => rfl
+    | false => simp at h
+
+/-- the predicates of `eq_refl_partial` are satisfiable by non-trivial regions (a circle with
+meta / visual entries; a compound of two sky circles given in different units). -/
+example : wf (wCircle 0 (.fin 1) (.fin 2) (.fin 3)) = true ∧
+    noNaN (wCircle 0 (.fin 1) (.fin 2) (.fin 3)) = true ∧
+    wf wCompoundSky = true ∧ noNaN wCompoundSky = true := by decide +kernel
+
+/-! ### copies are equal: full / refuted -/
+
+/-- FULL-STRENGTH clause "a copy compares equal to the original" (for every class of the table
+whose constructor stores its parameters as given). -/
+def copy_eq_full : Prop :=
+  ∀ c ∈ classTable, c.ctor ≠ .polygon → ∀ (t : Tol) (bound next i : Nat) (fa : Fields) (r' : V) (n' : Nat),
+    copyRegion bound next (.node i (.region c.name) fa) [] = .ok (r', n') →
+    (∀ key ∈ cmpKeys c.name, (fa.get? key).isSome = true) →
+    isDictNode (fa.getD "meta" (.atom .none)) = true →
+    isDictNode (fa.getD "visual" (.atom .none)) = true →
+    eqRegion t (.node i (.region c.name) fa) (.node i (.region c.name) fa) = .ok true →
+    eqRegion t (.node i (.region c.name) fa) r' = .ok true
+
+/-- refuted on the model of the current code (finding F2c): the copy of a compound sky region
+whose meta is non-empty has an EMPTY meta and is not equal to the original. -/
+theorem copy_eq_full_refuted : ¬ copy_eq_full := by
+  intro h
+  have key : (match copyRegion 100 100 wCompoundSky [] with
+      | .ok p => eqRegion tolNumpy wCompoundSky p.1
+      | .error _ => .ok true) = .ok false := by decide +kernel
+  rcases hcp : copyRegion 100 100 wCompoundSky [] with e | ⟨r', n'⟩
+  · rw [hcp] at key; cases key
+  · rw [hcp] at key
+    have := h ⟨"CompoundSkyRegion", ["region1", "region2", "operator"], [], .dropIfGiven, .compound⟩
+      (by decide +kernel) (by decide +kernel) tolNumpy 100 100 0 (fieldsOf wCompoundSky) r' n' hcp
+      (by decide +kernel) (by decide +kernel) (by decide +kernel) (by decide +kernel)
+    simp only at key
+    have h2 : eqRegion tolNumpy wCompoundSky r' = .ok true := this
+    rw [key] at h2
+    cases h2
+
+/-- the same input refutes "a copy with changes differs in exactly the named fields". -/
+theorem copy_changes_exact_full_refuted : ¬ copy_changes_exact_full := by
+  intro h
+  have key : (match copyRegion 100 100 wCompoundSky [] with
+      | .ok p => (fieldsOf p.1).get? "meta"
+      | .error _ => none) = some (.node 601 .rmeta .nil) := by decide +kernel
+  rcases hcp : copyRegion 100 100 wCompoundSky [] with e | ⟨r', n'⟩
+  · rw [hcp] at key; cases key
+  · rw [hcp] at key
+    obtain ⟨v, hv, hn⟩ := h ⟨"CompoundSkyRegion", ["region1", "region2", "operator"], [], .dropIfGiven, .compound⟩
+      (by decide +kernel) (by decide +kernel) 100 100 0 (fieldsOf wCompoundSky) [] r' n' hcp
+      (by decide +kernel) (by decide +kernel) "meta" (by decide +kernel)
+    simp only at key
+    rw [key] at hv
+    cases hv
+    revert hn
+    decide +kernel
+
+
+/-! ## I. symmetry -/
+
+theorem Num.ne_comm (a b : Num) : a.ne b = b.ne a := by
+  cases a <;> cases b <;> simp [Num.ne, eq_comm]
+
+theorem atomNe_comm (a b : Atom) : atomNe a b = atomNe b a := by
+  cases a <;> cases b <;> simp [atomNe, Num.ne_comm, bne_comm]
+
+theorem zip_any_swap {α : Type} (f : α × α → Bool) (g : α × α → Bool)
+    (h : ∀ a b, f (a, b) = g (b, a)) : ∀ (la lb : List α), (la.zip lb).any f = (lb.zip la).any g
+  | [], lb => by cases lb <;> rfl
+  | a :: la, [] => rfl
+  | a :: la, b :: lb => by simp [List.zip_cons_cons, h a b, zip_any_swap f g h la lb]
+
+theorem zip_all_swap {α : Type} (f : α × α → Bool) (g : α × α → Bool) :
+    ∀ (la lb : List α), (∀ ab ∈ la.zip lb, f ab = g (ab.2, ab.1)) →
+      (la.zip lb).all f = (lb.zip la).all g
+  | [], lb, _ => by cases lb <;> rfl
+  | a :: la, [], _ => rfl
+  | a :: la, b :: lb, h => by
+    simp only [List.zip_cons_cons, List.all_cons]
+    rw [h (a, b) (by simp), zip_all_swap f g la lb (fun ab hab => h ab (by simp [hab]))]
+
+theorem valNe_comm (a b : V) : valNe a b = valNe b a := by
+  cases a with
+  | atom x =>
+    cases b with
+    | atom y => exact atomNe_comm x y
+    | node j kb fb => cases kb <;> rfl
+  | node i ka fa =>
+    cases b with
+    | atom y => cases ka <;> rfl
+    | node j kb fb =>
+      cases ka <;> cases kb <;> try rfl
+      simp only [valNe]
+      by_cases hl : fa.vals.length = fb.vals.length
+      · simp only [hl, ne_eq, not_true_eq_false, if_false]
+        apply zip_any_swap
+        intro x y
+        cases x <;> cases y <;> simp [atomNe_comm]
+      · have hl' : ¬ fb.vals.length = fa.vals.length := fun e => hl e.symm
+        simp [hl, hl']
+
+/-- the pairs of elements numpy compares when it broadcasts two 1-D arrays. -/
+def bzip (la lb : List Num) : List (Num × Num) :=
+  if la.length = lb.length then la.zip lb
+  else match la, lb with
+    | [a], _ => lb.map fun b => (a, b)
+    | _, [b] => la.map fun a => (a, b)
+    | _, _ => []
+
+/-- swapping the operands of a broadcast comparison. -/
+theorem bcastAll_symm (p q : Num → Num → Bool) (la lb : List Num)
+    (h : ∀ ab ∈ bzip la lb, p ab.1 ab.2 = q ab.2 ab.1) : bcastAll p la lb = bcastAll q lb la := by
+  unfold bcastAll
+  unfold bzip at h
+  by_cases hl : la.length = lb.length
+  · simp only [hl, if_true] at h ⊢
+    congr 1
+    exact zip_all_swap _ _ la lb (fun ab hab => h ab hab)
+  · have hl' : ¬ lb.length = la.length := fun e => hl e.symm
+    simp only [hl, hl', if_false] at h ⊢
+    match la, lb, hl, hl', h with
+    | [a], [], _, _, h => rfl
+    | [a], [b], hl, _, _ => simp at hl
+    | [a], b :: c :: lb, _, _, h =>
+      simp only
+      congr 1
+      rw [List.all_eq, List.all_eq]
+      simp only [List.mem_cons, decide_eq_decide]
+      constructor
+      · intro hall x hx
+        rw [← h (a, x) (by simpa using hx)]; exact hall x hx
+      · intro hall x hx
+        rw [h (a, x) (by simpa using hx)]; exact hall x hx
+    | [], [b], _, _, h => rfl
+    | a :: c :: la, [b], _, _, h =>
+      simp only
+      congr 1
+      rw [List.all_eq, List.all_eq]
+      simp only [List.mem_cons, decide_eq_decide]
+      constructor
+      · intro hall x hx
+        rw [← h (x, b) (by simpa using hx)]; exact hall x hx
+      · intro hall x hx
+        rw [h (x, b) (by simpa using hx)]; exact hall x hx
+    | [], [], hl, _, _ => simp at hl
+    | [], b :: c :: lb, _, _, _ => rfl
+    | a :: c :: la, [], _, _, _ => rfl
+    | a :: c :: la, b :: d :: lb, _, _, _ => rfl
+
+
+theorem neDict_false_iff (fa fb : Fields) : neDict fa fb = false ↔
+    fa.length = fb.length ∧
+    ∀ kv ∈ fa.toList, ∃ vb, fb.get? kv.1 = some vb ∧ valNe kv.2 vb = false := by
+  unfold neDict
+  by_cases hl : fa.length = fb.length
+  · simp only [hl, ne_eq, not_true_eq_false, if_false, true_and]
+    rw [List.any_eq_false]
+    constructor
+    · intro h kv hkv
+      have := h kv hkv
+      cases hg : fb.get? kv.1 with
+      | none => rw [hg] at this; simp at this
+      | some vb => rw [hg] at this; exact ⟨vb, rfl, by simpa using this⟩
+    · intro h kv hkv
+      obtain ⟨vb, hg, hv⟩ := h kv hkv
+      rw [hg]; simp [hv]
+  · simp [hl]
+
+theorem keys_length : ∀ fs : Fields, fs.keys.length = fs.length
+  | .nil => rfl
+  | .cons _ _ r => by simp [Fields.keys, Fields.length, keys_length r]
+
+theorem mem_toList_of_mem_keys : ∀ (fs : Fields) (k : String), k ∈ fs.keys → ∃ v, (k, v) ∈ fs.toList
+  | .nil, _, h => by simp [Fields.keys] at h
+  | .cons k1 v1 r, k, h => by
+    simp only [Fields.keys, List.mem_cons] at h
+    rcases h with rfl | h
+    · exact ⟨v1, by simp [Fields.toList]⟩
+    · obtain ⟨v, hv⟩ := mem_toList_of_mem_keys r k h
+      exact ⟨v, by simp [Fields.toList, hv]⟩
+
+theorem get?_some_mem_keys (fs : Fields) (k : String) (v : V) (h : fs.get? k = some v) :
+    k ∈ fs.keys := mem_keys_of_mem_toList fs k v (get?_mem fs k v h)
+
+theorem neDict_false_swap (fa fb : Fields) (ha : fa.keys.Nodup) (hb : fb.keys.Nodup)
+    (h : neDict fa fb = false) : neDict fb fa = false := by
+  rw [neDict_false_iff] at h ⊢
+  obtain ⟨hl, hall⟩ := h
+  refine ⟨hl.symm, ?_⟩
+  -- every key of fa is a key of fb; equal sizes and distinct keys give the converse
+  have hsub : fa.keys ⊆ fb.keys := by
+    intro k hk
+    obtain ⟨v, hv⟩ := mem_toList_of_mem_keys fa k hk
+    obtain ⟨vb, hg, _⟩ := hall (k, v) hv
+    exact get?_some_mem_keys fb k vb hg
+  have hperm : fa.keys.Perm fb.keys :=
+    (List.subperm_of_subset ha hsub).perm_of_length_le (by rw [keys_length, keys_length, hl])
+  intro kv hkv
+  have hk : kv.1 ∈ fa.keys := hperm.symm.subset (mem_keys_of_mem_toList fb kv.1 kv.2 hkv)
+  obtain ⟨va, hva⟩ := mem_toList_of_mem_keys fa kv.1 hk
+  obtain ⟨vb, hg, hne⟩ := hall (kv.1, va) hva
+  have hgb : fb.get? kv.1 = some kv.2 :=
+    get?_of_nodup (fun _ => true) fb kv.1 kv.2 (by simpa using hb) hkv rfl
+  simp only at hg hne
+  rw [hgb] at hg; cases hg
+  refine ⟨va, get?_of_nodup (fun _ => true) fa kv.1 va (by simpa using ha) hva rfl, ?_⟩
+  rw [valNe_comm]; exact hne
+
+/-- `dict.__ne__` is symmetric (distinct keys, as in any Python dict). -/
+theorem neDict_comm (fa fb : Fields) (ha : fa.keys.Nodup) (hb : fb.keys.Nodup) :
+    neDict fa fb = neDict fb fa := by
+  cases h1 : neDict fa fb with
+  | false => exact (neDict_false_swap fa fb ha hb h1).symm
+  | true =>
+    cases h2 : neDict fb fa with
+    | true => rfl
+    | false => rw [neDict_false_swap fb fa hb ha h2] at h1; cases h1
+
+
+/-- the coordinate pairs `np.allclose` compares for two `PixCoord` objects. -/
+def pixLeaf (fa fb : Fields) : List (Num × Num) :=
+  match (fa.get? "x").bind coordList, (fa.get? "y").bind coordList,
+        (fb.get? "x").bind coordList, (fb.get? "y").bind coordList with
+  | some (xa, _), some (ya, _), some (xb, _), some (yb, _) => bzip xa xb ++ bzip ya yb
+  | _, _, _, _ => []
+
+mutual
+/-- all pairs of CORRESPONDING pixel coordinates that `a == b` compares with the tolerance
+(through the parameters of the regions and of nested compound operands). -/
+def pixPairs : V → V → List (Num × Num)
+  | .atom _, _ => []
+  | .node _ k fa, b =>
+    match k with
+    | .pixcoord => match b with
+      | .node _ .pixcoord fb => pixLeaf fa fb
+      | _ => []
+    | .region ca => match b with
+      | .node _ (.region _) fb => pixPairsF (cmpKeys ca) fa fb
+      | _ => []
+    | _ => []
+def pixPairsF (keys : List String) : Fields → Fields → List (Num × Num)
+  | .nil, _ => []
+  | .cons key va rest, fb =>
+    (if keys.contains key then
+      match fb.get? key with
+      | some vb => pixPairs va vb
+      | none => []
+     else []) ++ pixPairsF keys rest fb
+end
+
+/-- no pair of corresponding pixel coordinates lies in the band where `np.isclose(a, b)` and
+`np.isclose(b, a)` differ (`atol + rtol·|a| < |a − b| ≤ atol + rtol·|b|` or the mirror image) —
+the decidable predicate that excludes exactly the inputs of finding F15. -/
+def PixSym (t : Tol) (a b : V) : Prop :=
+  ∀ p ∈ pixPairs a b, Num.close t p.1 p.2 = Num.close t p.2 p.1
+
+instance (t : Tol) (a b : V) : Decidable (PixSym t a b) := by unfold PixSym; infer_instance
+
+theorem nePix_symm (t : Tol) (fa fb : Fields)
+    (h : ∀ p ∈ pixLeaf fa fb, Num.close t p.1 p.2 = Num.close t p.2 p.1) :
+    nePix t fa fb = nePix t fb fa := by
+  unfold nePix
+  unfold pixLeaf at h
+  generalize (fa.get? "x").bind coordList = oxa at h ⊢
+  generalize (fa.get? "y").bind coordList = oya at h ⊢
+  generalize (fb.get? "x").bind coordList = oxb at h ⊢
+  generalize (fb.get? "y").bind coordList = oyb at h ⊢
+  cases oxa with
+  | none => cases oya <;> cases oxb <;> cases oyb <;> rfl
+  | some pxa =>
+    cases oya with
+    | none => cases oxb <;> cases oyb <;> rfl
+    | some pya =>
+      cases oxb with
+      | none => cases oyb <;> rfl
+      | some pxb =>
+        cases oyb with
+        | none => rfl
+        | some pyb =>
+          obtain ⟨xa, sa⟩ := pxa
+          obtain ⟨ya, sa'⟩ := pya
+          obtain ⟨xb, sb⟩ := pxb
+          obtain ⟨yb, sb'⟩ := pyb
+          simp only at h ⊢
+          have hx := bcastAll_symm (Num.close t) (Num.close t) xa xb
+            (fun ab hab => h ab (List.mem_append_left _ hab))
+          have hy := bcastAll_symm (Num.close t) (Num.close t) ya yb
+            (fun ab hab => h ab (List.mem_append_right _ hab))
+          rw [hx, hy]
+          by_cases hs : sa = sb
+          · subst hs; rfl
+          · have hs' : ¬ sb = sa := fun e => hs e.symm
+            simp [hs, hs']
+
+/-- the same loop, written over the list of attribute names. -/
+def eqKeys (t : Tol) : List String → Fields → Fields → Except Exc Bool
+  | [], _, _ => .ok true
+  | k :: ks, fa, fb =>
+    match fa.get? k, fb.get? k with
+    | some va, some vb =>
+      match neV t va vb with
+      | .ok true => .ok false
+      | .ok false => eqKeys t ks fa fb
+      | .error .typeError => .ok false
+      | .error e => .error e
+    | _, _ => .error .attributeError
+
+theorem eqLoop_eqKeys_aux (t : Tol) (keys : List String) (full fb : Fields) : ∀ rest : Fields,
+    (∀ kv ∈ rest.toList, keys.contains kv.1 = true → full.get? kv.1 = some kv.2) →
+    eqLoop t keys rest fb = eqKeys t (rest.keys.filter keys.contains) full fb
+  | .nil, _ => rfl
+  | .cons key va rest, h => by
+    have hrest := eqLoop_eqKeys_aux t keys full fb rest
+      (fun kv hkv hk => h kv (by simp [Fields.toList, hkv]) hk)
+    unfold eqLoop
+    by_cases hc : keys.contains key = true
+    · have hg := h (key, va) (by simp [Fields.toList]) hc
+      simp only at hg
+      simp only [hc, if_true, Fields.keys, List.filter_cons, eqKeys, hg]
+      cases fb.get? key with
+      | none => rfl
+      | some vb =>
+        simp only
+        rcases hn : neV t va vb with e | r
+        · cases e <;> rfl
+        · cases r
+          · exact hrest
+          · rfl
+    · simp only [hc, Bool.false_eq_true, if_false, Fields.keys, List.filter_cons]
+      exact hrest
+
+theorem eqLoop_eqKeys (t : Tol) (keys : List String) (fa fb : Fields) (hk : keys.Nodup)
+    (hf : fa.keys.filter keys.contains = keys) : eqLoop t keys fa fb = eqKeys t keys fa fb := by
+  have := eqLoop_eqKeys_aux t keys fa fb fa
+    (fun kv hkv hc => get?_of_nodup _ fa kv.1 kv.2 (by rw [hf]; exact hk) hkv hc)
+  rw [this, hf]
+
+theorem eqKeys_symm (t : Tol) (fa fb : Fields) : ∀ ks : List String,
+    (∀ k ∈ ks, ∀ va vb, fa.get? k = some va → fb.get? k = some vb → neV t va vb = neV t vb va) →
+    eqKeys t ks fa fb = eqKeys t ks fb fa
+  | [], _ => rfl
+  | k :: ks, h => by
+    have ih := eqKeys_symm t fa fb ks (fun k' hk' => h k' (by simp [hk']))
+    unfold eqKeys
+    cases hga : fa.get? k with
+    | none => cases fb.get? k <;> rfl
+    | some va =>
+      cases hgb : fb.get? k with
+      | none => rfl
+      | some vb =>
+        simp only
+        rw [h k (by simp) va vb hga hgb, ih]
+
+theorem wfF_get (keys : List String) : ∀ (fs : Fields) (k : String) (v : V), wfF keys fs = true →
+    (k, v) ∈ fs.toList → keys.contains k = true → wf v = true
+  | .nil, _, _, _, h, _ => by simp [Fields.toList] at h
+  | .cons k0 v0 r, k, v, hw, h, hk => by
+    simp only [wfF, Bool.and_eq_true, Bool.or_eq_true, Bool.not_eq_true'] at hw
+    simp only [Fields.toList, List.mem_cons] at h
+    rcases h with h | h
+    · cases h
+      rcases hw.1 with hc | hc
+      · rw [hk] at hc; cases hc
+      · exact hc
+    · exact wfF_get keys r k v hw.2 h hk
+
+theorem pixPairsF_sub (keys : List String) : ∀ (fa fb : Fields) (k : String) (va vb : V),
+    (k, va) ∈ fa.toList → keys.contains k = true → fb.get? k = some vb →
+    ∀ p ∈ pixPairs va vb, p ∈ pixPairsF keys fa fb
+  | .nil, _, _, _, _, h, _, _, _, _ => by simp [Fields.toList] at h
+  | .cons k0 v0 r, fb, k, va, vb, h, hk, hg, p, hp => by
+    simp only [Fields.toList, List.mem_cons] at h
+    unfold pixPairsF
+    rw [List.mem_append]
+    rcases h with h | h
+    · cases h
+      left
+      simp only [hk, if_true, hg]
+      exact hp
+    · exact Or.inr (pixPairsF_sub keys r fb k va vb h hk hg p hp)
+
+theorem isInstance_symm_of_keys (ca cb : String) (h : cmpKeys ca = cmpKeys cb) :
+    isInstance cb ca = isInstance ca cb := by
+  have tbl : ∀ c ∈ classTable, ∀ b ∈ c.bases, cmpKeys b ≠ cmpKeys c.name := by decide +kernel
+  by_cases he : ca = cb
+  · subst he; rfl
+  · have he' : ¬ cb = ca := fun e => he e.symm
+    unfold isInstance
+    have h1 : (cb == ca) = false := by simpa using he'
+    have h2 : (ca == cb) = false := by simpa using he
+    rw [h1, h2]
+    simp only [Bool.false_or]
+    have side : ∀ x y : String, cmpKeys x = cmpKeys y →
+        (match classInfo? y with
+          | some c => c.bases.contains x
+          | none => false) = false := by
+      intro x y hxy
+      cases hc : classInfo? y with
+      | none => rfl
+      | some c =>
+        simp only
+        obtain ⟨hm, hn⟩ := classInfo?_mem y c hc
+        rw [Bool.eq_false_iff]
+        intro hcon
+        have := tbl c hm x (by simpa using hcon)
+        rw [hn] at this
+        exact this hxy
+    exact (side ca cb h).trans (side cb ca h.symm).symm
+
+
+theorem wf_region (i : Nat) (c : String) (fs : Fields) (h : wf (.node i (.region c) fs) = true) :
+    fs.keys.filter (cmpKeys c).contains = cmpKeys c ∧ wfF (cmpKeys c) fs = true := by
+  simpa [wf] using h
+
+theorem wf_dictKeys (i : Nat) (k : Kind) (fs : Fields) (hk : k = .dict ∨ k = .rmeta ∨ k = .rvisual)
+    (h : wf (.node i k fs) = true) : fs.keys.Nodup := by
+  rcases hk with rfl | rfl | rfl <;> (simp [wf] at h; exact h.1)
+
+mutual
+/-- `a != b` and `b != a` give the same answer (value or exception) for well-formed values
+whose corresponding pixel coordinates avoid the asymmetric tolerance band. -/
+theorem neV_symm (t : Tol) : ∀ (a b : V), wf a = true → wf b = true → PixSym t a b →
+    neV t a b = neV t b a
+  | .atom x, .atom y, _, _, _ => by simp [neV, atomNe_comm]
+  | .atom x, .node j kb fb, _, _, _ => by cases kb <;> rfl
+  | .node i ka fa, .atom y, _, _, _ => by cases ka <;> rfl
+  | .node i ka fa, .node j kb fb, hwa, hwb, hs => by
+    cases ka with
+    | region ca =>
+      cases kb <;> try rfl
+      rename_i cb
+      simp only [neV]
+      by_cases hkeys : cmpKeys ca = cmpKeys cb
+      · have hinst := isInstance_symm_of_keys ca cb hkeys
+        rw [hinst]
+        by_cases hi : isInstance ca cb = true
+        · simp only [hi, Bool.not_true, Bool.false_eq_true, if_false, ne_eq, hkeys,
+            not_true_eq_false]
+          obtain ⟨hfa, hwfa⟩ := wf_region i ca fa hwa
+          obtain ⟨hfb, hwfb⟩ := wf_region j cb fb hwb
+          have hnd := cmpKeys_nodup cb
+          rw [← hkeys] at hfb hwfb
+          rw [← hkeys]
+          rw [eqLoop_eqKeys t _ fa fb (cmpKeys_nodup ca) hfa,
+            eqLoop_eqKeys t _ fb fa (cmpKeys_nodup ca) hfb]
+          rw [eqKeys_symm t fa fb (cmpKeys ca)]
+          intro k hk va vb hga hgb
+          have hmem := get?_mem fa k va hga
+          have hkc : (cmpKeys ca).contains k = true := by simpa using hk
+          apply symF t fa (k, va) hmem vb
+          · exact wfF_get _ fa k va hwfa hmem hkc
+          · exact wfF_get _ fb k vb hwfb (get?_mem fb k vb hgb) hkc
+          · intro p hp
+            apply hs p
+            simp only [pixPairs]
+            exact pixPairsF_sub _ fa fb k va vb hmem hkc hgb p hp
+        · simp [hi]
+      · have hkeys' : ¬ cmpKeys cb = cmpKeys ca := fun e => hkeys e.symm
+        by_cases h1 : isInstance cb ca = true <;> by_cases h2 : isInstance ca cb = true <;>
+          simp [h1, h2, hkeys, hkeys']
+    | pixcoord =>
+      cases kb <;> try rfl
+      simp only [neV]
+      exact nePix_symm t fa fb (fun p hp => hs p (by simpa [pixPairs] using hp))
+    | quantity =>
+      cases kb <;> try rfl
+      simp only [neV, neQty, Num.ne_comm]
+    | skycoord =>
+      cases kb <;> try rfl
+      simp only [neV, neSky]
+      by_cases hf : atomOf (fa.get? "frame") = atomOf (fb.get? "frame")
+      · have hf' := hf.symm
+        simp only [hf, ne_eq, not_true_eq_false, if_false]
+        rw [bcastAll_symm (fun a b => !(a.ne b)) (fun a b => !(a.ne b)) (arrOf (fa.get? "lon"))
+            (arrOf (fb.get? "lon")) (fun ab _ => by simp [Num.ne_comm]),
+          bcastAll_symm (fun a b => !(a.ne b)) (fun a b => !(a.ne b)) (arrOf (fa.get? "lat"))
+            (arrOf (fb.get? "lat")) (fun ab _ => by simp [Num.ne_comm])]
+      · have hf' : ¬ atomOf (fb.get? "frame") = atomOf (fa.get? "frame") := fun e => hf e.symm
+        simp [hf, hf']
+    | dict =>
+      cases kb <;> try rfl
+      all_goals
+        simp only [neV]
+        rw [neDict_comm fa fb (wf_dictKeys i _ fa (by simp) hwa) (wf_dictKeys j _ fb (by simp) hwb)]
+    | rmeta =>
+      cases kb <;> try rfl
+      all_goals
+        simp only [neV]
+        rw [neDict_comm fa fb (wf_dictKeys i _ fa (by simp) hwa) (wf_dictKeys j _ fb (by simp) hwb)]
+    | rvisual =>
+      cases kb <;> try rfl
+      all_goals
+        simp only [neV]
+        rw [neDict_comm fa fb (wf_dictKeys i _ fa (by simp) hwa) (wf_dictKeys j _ fb (by simp) hwb)]
+    | list =>
+      cases kb <;> try rfl
+      simp only [neV]
+      have := valNe_comm (.node 0 .list fa) (.node j .list fb)
+      have h1 : valNe (.node 0 .list fa) (.node j .list fb) = valNe (.node j .list fb) (.node 0 .list fa) := this
+      have h2 : valNe (.node j .list fb) (.node 0 .list fa) = valNe (.node 0 .list fb) (.node i .list fa) := rfl
+      rw [h1, h2]
+    | array =>
+      cases kb <;> try rfl
+      simp only [neV]
+      rw [bcastAll_symm (fun x y => !(x.ne y)) (fun x y => !(x.ne y)) fa.nums fb.nums
+        (fun ab _ => by simp [Num.ne_comm])]
+    | regions => cases kb <;> rfl
+theorem symF (t : Tol) : ∀ (fs : Fields) (kv : String × V), kv ∈ fs.toList → ∀ b : V,
+    wf kv.2 = true → wf b = true → PixSym t kv.2 b → neV t kv.2 b = neV t b kv.2
+  | .nil, _, h, _, _, _, _ => by simp [Fields.toList] at h
+  | .cons k v r, kv, h, b, hwa, hwb, hs => by
+    simp only [Fields.toList, List.mem_cons] at h
+    rcases h with rfl | h
+    · exact neV_symm t v b hwa hwb hs
+    · exact symF t r kv h b hwa hwb hs
+end
+
+
+/-- `Region.__ne__` is what `!=` evaluates on two regions. -/
+theorem neV_region (t : Tol) (i j : Nat) (ca cb : String) (fa fb : Fields) :
+    neV t (.node i (.region ca) fa) (.node j (.region cb) fb) =
+      neRegion t (.node i (.region ca) fa) (.node j (.region cb) fb) := by
+  simp only [neV, neRegion, eqRegion_node]
+  by_cases h1 : isInstance cb ca = true
+  · by_cases h2 : cmpKeys ca = cmpKeys cb
+    · simp [h1, h2]
+    · simp [h1, h2]
+  · simp [h1]
+
+theorem neRegion_inj (t : Tol) (a b a' b' : V) (h : neRegion t a b = neRegion t a' b') :
+    eqRegion t a b = eqRegion t a' b' := by
+  unfold neRegion at h
+  cases h1 : eqRegion t a b with
+  | error e =>
+    rw [h1] at h
+    cases h2 : eqRegion t a' b' with
+    | error e' => rw [h2] at h; simp only at h; cases h; rfl
+    | ok r' => rw [h2] at h; simp at h
+  | ok r =>
+    rw [h1] at h
+    cases h2 : eqRegion t a' b' with
+    | error e' => rw [h2] at h; simp at h
+    | ok r' =>
+      rw [h2] at h
+      simp only [Except.ok.injEq] at h
+      cases r <;> cases r' <;> simp_all
+
+/-- FULL-STRENGTH clause "equality is symmetric". -/
+def eq_symm_full : Prop :=
+  ∀ (t : Tol), 0 ≤ t.rtol → 0 ≤ t.atol → ∀ (i j : Nat) (ca cb : String) (fa fb : Fields),
+    wf (.node i (.region ca) fa) = true → wf (.node j (.region cb) fb) = true →
+    eqRegion t (.node i (.region ca) fa) (.node j (.region cb) fb) =
+      eqRegion t (.node j (.region cb) fb) (.node i (.region ca) fa)
+
+/-- refuted on the model of the current code (finding F15): `np.allclose` is relative to its
+SECOND argument; for `x = 1` against `x' = 1 + 1.001005e-5`:
+`|x − x'| ≤ atol + rtol·|x'|` holds but `|x' − x| ≤ atol + rtol·|x|` does not. -/
+theorem eq_symm_full_refuted : ¬ eq_symm_full := by
+  intro h
+  have := h tolNumpy (by decide +kernel) (by decide +kernel) 0 10 "CirclePixelRegion" "CirclePixelRegion"
+    (fieldsOf (wCircle 0 (.fin 1) (.fin 2) (.fin 3)))
+    (fieldsOf (wCircle 10 (.fin (1 + 1001005 / 100000000000)) (.fin 2) (.fin 3)))
+    (by decide +kernel) (by decide +kernel)
+  revert this
+  decide +kernel
+
+/-- **eq_symm** (partial): for well-formed regions whose corresponding pixel coordinates avoid
+the asymmetric band of `np.isclose`, `a == b` and `b == a` agree — same truth value, or the same
+exception — for all classes, compound nestings and sizes. -/
+theorem eq_symm_partial (t : Tol) (i j : Nat) (ca cb : String) (fa fb : Fields)
+    (hwa : wf (.node i (.region ca) fa) = true) (hwb : wf (.node j (.region cb) fb) = true)
+    (hs : PixSym t (.node i (.region ca) fa) (.node j (.region cb) fb)) :
+    eqRegion t (.node i (.region ca) fa) (.node j (.region cb) fb) =
+      eqRegion t (.node j (.region cb) fb) (.node i (.region ca) fa) := by
+  apply neRegion_inj
+  rw [← neV_region, ← neV_region]
+  exact neV_symm t _ _ hwa hwb hs
+
+/-- the predicate is satisfiable, also by regions that differ inside the tolerance:
+`x = 1` against `x = 1 + 5e-6` (well inside the band both ways) compare equal both ways. -/
+example : wf (wCircle 0 (.fin 1) (.fin 2) (.fin 3)) = true ∧
+    wf (wCircle 10 (.fin (1 + 5 / 1000000)) (.fin 2) (.fin 3)) = true ∧
+    PixSym tolNumpy (wCircle 0 (.fin 1) (.fin 2) (.fin 3))
+      (wCircle 10 (.fin (1 + 5 / 1000000)) (.fin 2) (.fin 3)) ∧
+    eqRegion tolNumpy (wCircle 0 (.fin 1) (.fin 2) (.fin 3))
+      (wCircle 10 (.fin (1 + 5 / 1000000)) (.fin 2) (.fin 3)) = .ok true := by
+  decide +kernel
+
+/-- the exact band of F15 on a scalar: `isclose(a, b) ≠ isclose(b, a)` iff `|a − b|` lies
+between the two tolerances. -/
+theorem close_asymm_iff (t : Tol) (a b : ℚ) :
+    (Num.fin a).close t (.fin b) ≠ (Num.fin b).close t (.fin a) ↔
+      (t.atol + t.rtol * |a| < |a - b| ∧ |a - b| ≤ t.atol + t.rtol * |b|) ∨
+      (t.atol + t.rtol * |b| < |a - b| ∧ |a - b| ≤ t.atol + t.rtol * |a|) := by
+  simp only [Num.close, ne_eq, decide_eq_decide]
+  rw [abs_sub_comm b a]
+  constructor
+  · intro h
+    by_cases h1 : |a - b| ≤ t.atol + t.rtol * |b|
+    · left
+      refine ⟨?_, h1⟩
+      by_contra h2
+      exact h ⟨fun _ => not_lt.mp h2, fun _ => h1⟩
+    · right
+      refine ⟨not_le.mp h1, ?_⟩
+      by_contra h2
+      exact h ⟨fun h3 => absurd h3 h1, fun h3 => absurd h3 h2⟩
+  · rintro (⟨h1, h2⟩ | ⟨h1, h2⟩) h
+    · exact absurd (h.mp h2) (not_le.mpr h1)
+    · exact absurd (h.mpr h2) (not_le.mpr h1)
+
+
+/-! ## J. unit re-expression -/
+
+mutual
+/-- re-express every `Quantity` inside a value in another unit: `g` maps the old unit name to the
+new unit name and its size in degrees; the value becomes `value·factor / factor'`. -/
+def reunit (g : Atom → String × ℚ) : V → V
+  | .atom a => .atom a
+  | .node i k fs =>
+    match k with
+    | .quantity =>
+      let u := g (atomOf (fs.get? "unit"))
+      quantity i ((qprod fs).mul (.fin (1 / u.2))) u.1 u.2
+    | _ => .node i k (reunitF g fs)
+def reunitF (g : Atom → String × ℚ) : Fields → Fields
+  | .nil => .nil
+  | .cons key v r => .cons key (reunit g v) (reunitF g r)
+end
+
+theorem qprod_quantity (i : Nat) (v : Num) (u : String) (f : ℚ) :
+    qprod (fieldsOf (quantity i v u f)) = v.mul (.fin f) := by
+  simp [quantity, fieldsOf, qprod, Fields.get?, numOf]
+
+theorem Num.mul_div_cancel (x : Num) (f : ℚ) (hf : f ≠ 0) :
+    (x.mul (.fin (1 / f))).mul (.fin f) = x := by
+  cases x with
+  | nan => rfl
+  | fin q => simp [Num.mul, hf]
+
+mutual
+theorem norm_reunit (g : Atom → String × ℚ) (hg : ∀ a, (g a).2 ≠ 0) :
+    ∀ v : V, norm (reunit g v) = norm v
+  | .atom _ => rfl
+  | .node i k fs => by
+    by_cases hk : k = .quantity
+    · subst hk
+      simp only [reunit, norm, quantity]
+      have := qprod_quantity i ((qprod fs).mul (.fin (1 / (g (atomOf (fs.get? "unit"))).2)))
+        (g (atomOf (fs.get? "unit"))).1 (g (atomOf (fs.get? "unit"))).2
+      simp only [quantity, fieldsOf] at this
+      rw [this, Num.mul_div_cancel _ _ (hg _)]
+    · have : reunit g (.node i k fs) = .node i k (reunitF g fs) := by cases k <;> first | rfl | exact absurd rfl hk
+      rw [this, norm_node_ne_qty _ _ _ hk, norm_node_ne_qty _ _ _ hk, normF_reunit g hg fs]
+theorem normF_reunit (g : Atom → String × ℚ) (hg : ∀ a, (g a).2 ≠ 0) :
+    ∀ fs : Fields, normF (reunitF g fs) = normF fs
+  | .nil => rfl
+  | .cons _ v r => by simp [reunitF, normF, norm_reunit g hg v, normF_reunit g hg r]
+end
+
+/-- **eq_unit_insensitive.**  Re-expressing the angular quantities of either operand in any
+units (every quantity possibly in a different one, at any depth of compound nesting) never
+changes the answer of `==`. -/
+theorem eq_unit_insensitive (t : Tol) (g g' : Atom → String × ℚ) (hg : ∀ a, (g a).2 ≠ 0)
+    (hg' : ∀ a, (g' a).2 ≠ 0) (a b : V) :
+    eqRegion t (reunit g a) (reunit g' b) = eqRegion t a b :=
+  eqRegion_congr t _ _ _ _ (norm_reunit g hg a) (norm_reunit g' hg' b)
+
+/-- in particular a region equals its own re-expression as soon as it equals itself. -/
+theorem eq_unit_insensitive_self (t : Tol) (g : Atom → String × ℚ) (hg : ∀ a, (g a).2 ≠ 0) (a : V)
+    (h : eqRegion t a a = .ok true) :
+    eqRegion t a (reunit g a) = .ok true ∧ eqRegion t (reunit g a) a = .ok true := by
+  constructor
+  · rw [eqRegion_congr t a a (reunit g a) a rfl (norm_reunit g hg a)]; exact h
+  · rw [eqRegion_congr t (reunit g a) a a a (norm_reunit g hg a) rfl]; exact h
+
+/-- everything to arcseconds (factor 1/3600): the sky compound with radii `1 deg` and `30 arcmin`
+becomes `3600 arcsec` and `1800 arcsec` and still equals the original. -/
+example : let g : Atom → String × ℚ := fun _ => ("arcsec", 1 / 3600)
+    reunit g (quantity 7 (.fin 1) "deg" 1) = quantity 7 (.fin 3600) "arcsec" (1 / 3600) ∧
+    eqRegion tolNumpy wCompoundSky (reunit g wCompoundSky) = .ok true := by
+  decide +kernel
+
+/-- the scalar case spelled out: `v·f = v'·f'` ⇔ the quantities are equal. -/
+theorem ne_quantity (t : Tol) (i j : Nat) (v v' : ℚ) (u u' : String) (f f' : ℚ) :
+    neV t (quantity i (.fin v) u f) (quantity j (.fin v') u' f') = .ok (decide (v * f ≠ v' * f')) := by
+  simp [neV, neQty, quantity, qprod, Fields.get?, numOf, Num.mul, Num.ne]
+
+
+
+/-! ## K. what "differs" means at the leaves: tolerances, vertex counts, dict entries -/
+
+theorem nums_listItems (xs : List ℚ) :
+    (listItems (xs.map fun q => V.atom (.num (.fin q)))).nums = xs.map Num.fin := by
+  induction xs with
+  | nil => rfl
+  | cons q xs ih =>
+    simp only [listItems, List.map_cons, Fields.ofList, Fields.nums] at ih ⊢
+    rw [ih]
+
+theorem get?_xy (a b : V) :
+    (Fields.cons "x" a (.cons "y" b .nil)).get? "x" = some a ∧
+    (Fields.cons "x" a (.cons "y" b .nil)).get? "y" = some b := by
+  constructor
+  · simp [Fields.get?]
+  · have : ¬ ("x" = "y") := by decide
+    simp [Fields.get?, this]
+
+/-- `!=` on two `PixCoord` arrays is the negated broadcast `allclose` of both coordinates. -/
+theorem ne_arrPix (t : Tol) (i j : Nat) (xa ya xb yb : List ℚ) :
+    neV t (arrPix i xa ya) (arrPix j xb yb) =
+      (do
+        let cx ← bcastAll (Num.close t) (xa.map Num.fin) (xb.map Num.fin)
+        let cy ← bcastAll (Num.close t) (ya.map Num.fin) (yb.map Num.fin)
+        pure (!(cx && cy))) := by
+  simp only [arrPix, neV, nePix, (get?_xy _ _).1, (get?_xy _ _).2, Option.bind_some, coordList,
+    nums_listItems, ne_eq, not_true_eq_false, if_false]
+
+/-- `!=` on two scalar `PixCoord`s. -/
+theorem ne_scalarPix (t : Tol) (i j : Nat) (xa ya xb yb : Num) :
+    neV t (scalarPix i xa ya) (scalarPix j xb yb) = .ok (!(xa.close t xb && ya.close t yb)) := by
+  simp only [scalarPix, neV, nePix, (get?_xy _ _).1, (get?_xy _ _).2, Option.bind_some, coordList,
+    ne_eq, not_true_eq_false, if_false, bcastAll, List.length_cons, List.length_nil, if_true,
+    List.zip_cons_cons, List.zip_nil_right, List.all_cons, List.all_nil, Bool.and_true]
+  rfl
+
+/-- a pixel position OUTSIDE the documented tolerance (`|a − b| > atol + rtol·|b|` in one
+coordinate) is a difference: `!=` answers `True`. -/
+theorem pix_outside_tolerance (t : Tol) (i j : Nat) (xa ya xb yb : ℚ)
+    (h : t.atol + t.rtol * |xb| < |xa - xb| ∨ t.atol + t.rtol * |yb| < |ya - yb|) :
+    neV t (scalarPix i (.fin xa) (.fin ya)) (scalarPix j (.fin xb) (.fin yb)) = .ok true := by
+  rw [ne_scalarPix]
+  simp only [Num.close, Bool.not_eq_true', Bool.and_eq_false_imp, decide_eq_true_eq,
+    decide_eq_false_iff_not, not_le, Except.ok.injEq]
+  rcases h with h | h
+  · intro h'; exact absurd h' (not_le.mpr h)
+  · intro _; exact h
+
+/-- a pixel position INSIDE the tolerance in both coordinates is no difference. -/
+theorem pix_inside_tolerance (t : Tol) (i j : Nat) (xa ya xb yb : ℚ)
+    (hx : |xa - xb| ≤ t.atol + t.rtol * |xb|) (hy : |ya - yb| ≤ t.atol + t.rtol * |yb|) :
+    neV t (scalarPix i (.fin xa) (.fin ya)) (scalarPix j (.fin xb) (.fin yb)) = .ok false := by
+  rw [ne_scalarPix]
+  simp [Num.close, hx, hy]
+
+/-- every other number is compared exactly. -/
+theorem ne_number (t : Tol) (x y : ℚ) :
+    neV t (.atom (.num (.fin x))) (.atom (.num (.fin y))) = .ok (decide (x ≠ y)) := by
+  simp [neV, atomNe, Num.ne]
+
+/-- FULL-STRENGTH clause for the vertex count: polygons with different numbers of vertices are
+not equal. -/
+def eq_detects_vertex_count_full : Prop :=
+  ∀ (t : Tol) (i j : Nat) (xa ya xb yb : List ℚ), xa.length = ya.length → xb.length = yb.length →
+    xa.length ≠ xb.length → eqRegion t (polyPix i xa ya) (polyPix j xb yb) = .ok false
+
+/-- refuted (F22): 3 against 4 vertices raises `ValueError`. -/
+theorem eq_detects_vertex_count_full_refuted : ¬ eq_detects_vertex_count_full := by
+  intro h
+  have := h tolNumpy 0 10 [0, 1, 2] [0, 1, 0] [0, 1, 2, 3] [0, 1, 0, 1] rfl rfl (by decide)
+  revert this
+  decide
+
+/-- refuted a second way (F22b): one vertex against three copies of it compares EQUAL. -/
+theorem eq_detects_vertex_count_full_refuted' : ¬ eq_detects_vertex_count_full := by
+  intro h
+  have := h tolNumpy 0 10 [1] [2] [1, 1, 1] [2, 2, 2] rfl rfl (by decide)
+  revert this
+  decide +kernel
+
+/-- what survives of the clause (partial): a single vertex against `n ≠ 1` vertices of which at
+least one is outside the tolerance of it IS detected.  (All other inputs with different counts
+are exactly the failing class: no broadcast ⇒ `ValueError`; broadcast with every vertex within
+tolerance ⇒ `True`.) -/
+theorem ne_vertex_count_partial (t : Tol) (i j : Nat) (xa ya : List ℚ) (bx «by» : ℚ)
+    (hl : xa.length ≠ 1) (hly : ya.length = xa.length)
+    (hfar : ∃ x ∈ xa, t.atol + t.rtol * |bx| < |x - bx|) :
+    neV t (arrPix i xa ya) (arrPix j [bx] [«by»]) = .ok true := by
+  rw [ne_arrPix]
+  have hx : bcastAll (Num.close t) (xa.map Num.fin) ([bx].map Num.fin) = .ok false := by
+    unfold bcastAll
+    simp only [List.length_map, List.length_cons, List.length_nil, Nat.zero_add, hl, if_false,
+      List.map_cons, List.map_nil]
+    obtain ⟨x, hxm, hx⟩ := hfar
+    match xa, hl, hxm with
+    | [], _, hxm => simp at hxm
+    | [a], hl, _ => simp at hl
+    | a :: c :: rest, _, hxm =>
+      simp only [List.map_cons]
+      congr 1
+      rw [List.all_eq_false]
+      refine ⟨Num.fin x, by simpa using hxm, ?_⟩
+      simp [Num.close, not_le.mpr hx]
+  have hy : ∃ r, bcastAll (Num.close t) (ya.map Num.fin) ([«by»].map Num.fin) = .ok r := by
+    unfold bcastAll
+    simp only [List.length_map, List.length_cons, List.length_nil, Nat.zero_add, hly, hl, if_false,
+      List.map_cons, List.map_nil]
+    match ya, hly with
+    | [], _ => exact ⟨_, rfl⟩
+    | [a], hly => exact absurd hly.symm hl
+    | a :: c :: rest, _ => exact ⟨_, rfl⟩
+  obtain ⟨r, hr⟩ := hy
+  rw [hx, hr]
+  rfl
+
+/-! #### meta / visual entries -/
+
+/-- a changed value under an existing key is a difference. -/
+theorem neDict_value (fa fb : Fields) (k : String) (va vb : V) (ha : (k, va) ∈ fa.toList)
+    (hb : fb.get? k = some vb) (hne : valNe va vb = true) : neDict fa fb = true := by
+  unfold neDict
+  split
+  · rfl
+  · rw [List.any_eq_true]
+    exact ⟨(k, va), ha, by simp [hb, hne]⟩
+
+/-- a key present on one side only is a difference. -/
+theorem neDict_missing (fa fb : Fields) (k : String) (va : V) (ha : (k, va) ∈ fa.toList)
+    (hb : fb.get? k = none) : neDict fa fb = true := by
+  unfold neDict
+  split
+  · rfl
+  · rw [List.any_eq_true]
+    exact ⟨(k, va), ha, by simp [hb]⟩
+
+/-- an added or removed entry changes the size: a difference. -/
+theorem neDict_size (fa fb : Fields) (h : fa.length ≠ fb.length) : neDict fa fb = true := by
+  unfold neDict; simp [h]
+
+
+/-! ## L. the hypotheses of the conditional theorems are satisfiable (non-vacuity) -/
+
+/-- executable form of `NoRaise`. -/
+def noRaise (t : Tol) (keys : List String) (fa fb : Fields) : Bool :=
+  fa.toList.all fun kv =>
+    !keys.contains kv.1 ||
+      match fb.get? kv.1 with
+      | some vb =>
+        (match neV t kv.2 vb with
+          | .error .typeError => true
+          | .error _ => false
+          | .ok _ => true)
+      | none => false
+
+theorem NoRaise_of_bool (t : Tol) (keys : List String) (fa fb : Fields)
+    (h : noRaise t keys fa fb = true) : NoRaise t keys fa fb := by
+  intro kv hkv hk
+  unfold noRaise at h
+  rw [List.all_eq_true] at h
+  have := h kv hkv
+  have hc : keys.contains kv.1 = true := by simpa using hk
+  simp only [hc, Bool.not_true, Bool.false_or] at this
+  cases hg : fb.get? kv.1 with
+  | none => rw [hg] at this; cases this
+  | some vb =>
+    rw [hg] at this
+    refine ⟨vb, rfl, ?_⟩
+    intro e he
+    simp only [he] at this
+    cases e <;> first | rfl | cases this
+
+/-- `eq_detects_partial`: two circles that differ in the radius only (3 against 3.000001). -/
+example : noRaise tolNumpy (cmpKeys "CirclePixelRegion")
+      (fieldsOf (wCircle 0 (.fin 1) (.fin 2) (.fin 3)))
+      (fieldsOf (wCircle 10 (.fin 1) (.fin 2) (.fin (3 + 1 / 1000000)))) = true ∧
+    eqRegion tolNumpy (wCircle 0 (.fin 1) (.fin 2) (.fin 3))
+      (wCircle 10 (.fin 1) (.fin 2) (.fin (3 + 1 / 1000000))) = .ok false := by
+  decide +kernel
+
+/-- `copy_disjoint`, `mutate_copy_preserves_original`: the copy of the witness circle
+(objects 0–3, allocation counter 4) consists of the objects 20, 5, 14, 19, and the mutation
+sequence "`c.center.x = 7`; `c.meta['label'] = ['t', <new list 30>]`; `c.meta['label'].append('u')`;
+`c.visual.clear()`; `c.radius = 9`" is admissible. -/
+example : ∃ c n', copyRegion 4 4 (wCircle 0 (.fin 1) (.fin 2) (.fin 3)) [] = .ok (c, n') ∧
+    (∀ i ∈ (wCircle 0 (.fin 1) (.fin 2) (.fin 3)).ids, i < 4) ∧
+    c.ids = [20, 5, 14, 19] ∧
+    Admissible (wCircle 0 (.fin 1) (.fin 2) (.fin 3)) c
+      [⟨5, .set "x" (.atom (.num (.fin 7)))⟩,
+       ⟨14, .set "label" (.node 30 .list (.cons "" (.atom (.str "t")) .nil))⟩,
+       ⟨30, .append (.atom (.str "u"))⟩,
+       ⟨19, .clear⟩,
+       ⟨20, .set "radius" (.atom (.num (.fin 9)))⟩] := by
+  refine ⟨_, _, rfl, by decide, by decide +kernel, ?_⟩
+  simp only [Admissible]
+  decide +kernel
+
+/-- `copy_eq_partial` / `copy_changes_exact_partial`: the witness circle meets every hypothesis. -/
+example :
+    (⟨"CirclePixelRegion", ["center", "radius"], [], .orFresh, .plain⟩ : ClassInfo) ∈ classTable ∧
+    (∀ key ∈ cmpKeys "CirclePixelRegion",
+      ((fieldsOf (wCircle 0 (.fin 1) (.fin 2) (.fin 3))).get? key).isSome = true) ∧
+    isDictNode ((fieldsOf (wCircle 0 (.fin 1) (.fin 2) (.fin 3))).getD "meta" (.atom .none)) = true ∧
+    isDictNode ((fieldsOf (wCircle 0 (.fin 1) (.fin 2) (.fin 3))).getD "visual" (.atom .none)) = true ∧
+    eqRegion tolNumpy (wCircle 0 (.fin 1) (.fin 2) (.fin 3)) (wCircle 0 (.fin 1) (.fin 2) (.fin 3))
+      = .ok true := by
+  decide +kernel
+
+/-- a `Regions` object with two regions (objects 40, 41). -/
+def wRegions : V :=
+  .node 40 .regions (.cons "regions" (.node 41 .list
+    (listItems [wCircle 0 (.fin 1) (.fin 2) (.fin 3), wCircle 10 (.fin 4) (.fin 5) (.fin 6)])) .nil)
+
+/-- `slice_copy_independent`: `T = S[::-1]` is the new objects 50 / 51 around the same two
+regions in reverse order; `T.append(S[0]); T.pop(0); T.reverse()` touches only object 51. -/
+example : (∀ i ∈ wRegions.ids, i < 50) ∧
+    (∃ t n', regionsSlice wRegions none none (some (-1)) 50 = .ok (t, n') ∧
+      t.ids.take 2 = [50, 51] ∧ (regionsItems t).map (fun v => v.ids.head!) = [10, 0]) ∧
+    (∀ m ∈ ([⟨51, .append (wCircle 0 (.fin 1) (.fin 2) (.fin 3))⟩, ⟨51, .pop 0⟩, ⟨51, .reverse⟩] : List Mut),
+      m.target = 50 ∨ m.target = 50 + 1) := by
+  refine ⟨by decide, ⟨_, _, rfl, by decide +kernel, by decide +kernel⟩, ?_⟩
+  intro m hm
+  simp only [List.mem_cons, List.not_mem_nil, or_false] at hm
+  rcases hm with rfl | rfl | rfl <;> simp
+
+/-- `ne_vertex_count_partial`: a triangle against the single vertex (0, 0). -/
+example : ([0, 1, 2] : List ℚ).length ≠ 1 ∧
+    (∃ x ∈ ([0, 1, 2] : List ℚ), tolNumpy.atol + tolNumpy.rtol * |(0 : ℚ)| < |x - 0|) :=
+  ⟨by decide, 1, by simp, by decide +kernel⟩
+
+
+/-! ## M. `PolygonPixelRegion.copy()`: `vertices + origin` is recomputed, with equal content -/
+
+def atomNum (x : Num) : V := .atom (.num x)
+
+/-- a `PixCoord` holding two coordinate arrays (any numbers, NaN included). -/
+def arrPixN (j jx jy : Nat) (xs ys : List Num) : V :=
+  .node j .pixcoord (.cons "x" (.node jx .array (listItems (xs.map atomNum)))
+    (.cons "y" (.node jy .array (listItems (ys.map atomNum))) .nil))
+
+theorem nums_listItemsN (xs : List Num) : (listItems (xs.map atomNum)).nums = xs := by
+  induction xs with
+  | nil => rfl
+  | cons q xs ih =>
+    simp only [listItems, List.map_cons, Fields.ofList, Fields.nums, atomNum] at ih ⊢
+    rw [ih]
+
+theorem shift_listItemsN (n : Nat) (xs : List Num) :
+    (listItems (xs.map atomNum)).shift n = listItems (xs.map atomNum) := by
+  induction xs with
+  | nil => rfl
+  | cons q xs ih =>
+    simp only [listItems, List.map_cons, Fields.ofList, Fields.shift, atomNum, V.shift] at ih ⊢
+    rw [ih]
+
+theorem shift_arrPixN (n j jx jy : Nat) (xs ys : List Num) :
+    (arrPixN j jx jy xs ys).shift n = arrPixN (j + n) (jx + n) (jy + n) xs ys := by
+  simp [arrPixN, V.shift, Fields.shift, shift_listItemsN]
+
+theorem Num.add_zero' (x : Num) : x.add (.fin 0) = x := by
+  cases x <;> simp [Num.add]
+
+/-- `array + 0` is a new array with the same elements. -/
+theorem addCoord_zero (jx id : Nat) (xs : List Num) :
+    addCoord (.node jx .array (listItems (xs.map atomNum))) (.atom (.num (.fin 0))) id =
+      .node id .array (listItems (xs.map atomNum)) := by
+  simp only [addCoord, coordList, nums_listItemsN, Bool.false_and, Bool.false_eq_true, if_false,
+    List.length_cons, List.length_nil, Nat.zero_add, if_true, List.headD_cons]
+  congr 2
+  apply List.ext_getElem
+  · by_cases h1 : xs.length = 1 <;> simp [h1]
+  · intro k h1 h2
+    simp only [List.getElem_map, List.getElem_range, atomNum]
+    have hk : k < xs.length := by simpa using h2
+    congr 2
+    by_cases hl : xs.length = 1
+    · have hk0 : k = 0 := by omega
+      subst hk0
+      cases xs with
+      | nil => simp at hk
+      | cons a rest => simp [hl, Num.add_zero']
+    · simp [hl, List.getD_eq_getElem?_getD, List.getElem?_eq_getElem hk, Num.add_zero']
+
+theorem pixAdd_zero (j jx jy n m : Nat) (xs ys : List Num) :
+    (pixAdd (arrPixN j jx jy xs ys) (pixZero n) m).1 = arrPixN m (m + 1) (m + 2) xs ys := by
+  simp only [pixAdd, arrPixN, pixZero, Fields.getD, (get?_xy _ _).1, (get?_xy _ _).2,
+    Option.getD_some, addCoord_zero]
+
+theorem norm_arrPixN (j jx jy j' jx' jy' : Nat) (xs ys : List Num) :
+    norm (arrPixN j jx jy xs ys) = norm (arrPixN j' jx' jy' xs ys) := by
+  simp [arrPixN, norm, normF, normKind]
+
+
+def polygonInfo : ClassInfo := ⟨"PolygonPixelRegion", ["vertices"], [], .orFresh, .polygon⟩
+
+/-- the compared attributes `PolygonPixelRegion.__init__` stores when `origin` is not passed. -/
+theorem construct_polygon (args : List (String × V)) (next : Nat) (r' : V) (n' : Nat)
+    (h : construct polygonInfo args next = .ok (r', n')) (ho : args.lookup "origin" = none) :
+    ∃ fs' b n m, r' = .node next (.region "PolygonPixelRegion") fs' ∧
+      fs'.get? "vertices" = some (pixAdd (lookup args "vertices") (pixZero n) m).1 ∧
+      fs'.get? "meta" = some (storeBoth polygonInfo args b).1.1 ∧
+      fs'.get? "visual" = some (storeBoth polygonInfo args b).1.2 ∧
+      (∀ kv ∈ fs'.toList, kv.1 ∈ ["vertices", "meta", "visual"] → fs'.get? kv.1 = some kv.2) := by
+  unfold construct at h
+  split at h
+  · cases h
+  · split at h
+    · cases h
+    · simp only [polygonInfo] at h
+      cases h
+      refine ⟨_, next + 1, (storeBoth polygonInfo args (next + 1)).2,
+        (storeBoth polygonInfo args (next + 1)).2 + 1, rfl, ?_, ?_, ?_, ?_⟩
+      · simp [buildPolygon, originArg, ho, Fields.ofList, Fields.get?, polygonInfo]
+      · have : ¬ ("vertices" = "meta") := by decide
+        simp [buildPolygon, Fields.ofList, Fields.get?, this, polygonInfo]
+      · have h1 : ¬ ("vertices" = "visual") := by decide
+        have h2 : ¬ ("meta" = "visual") := by decide
+        simp [buildPolygon, Fields.ofList, Fields.get?, h1, h2, polygonInfo]
+      · intro kv hkv hk
+        have h1 : ¬ ("vertices" = "meta") := by decide
+        have h2 : ¬ ("vertices" = "visual") := by decide
+        have h3 : ¬ ("meta" = "visual") := by decide
+        simp only [buildPolygon, Fields.ofList, Fields.toList, List.mem_cons, List.not_mem_nil,
+          or_false] at hkv
+        simp only [List.mem_cons, List.not_mem_nil, or_false] at hk
+        rcases hkv with rfl | rfl | rfl | rfl | rfl
+        · simp [buildPolygon, Fields.ofList, Fields.get?]
+        · simp [buildPolygon, Fields.ofList, Fields.get?, h1]
+        · simp [buildPolygon, Fields.ofList, Fields.get?, h2, h3]
+        · simp only at hk
+          have : ¬ ("_vertices" = "vertices" ∨ "_vertices" = "meta" ∨ "_vertices" = "visual") := by decide
+          exact absurd hk this
+        · simp only at hk
+          have : ¬ ("origin" = "vertices" ∨ "origin" = "meta" ∨ "origin" = "visual") := by decide
+          exact absurd hk this
+
+/-- **copy_eq for pixel polygons.**  `vertices` of the copy is a NEW `PixCoord` with NEW arrays
+(`deepcopy(vertices) + PixCoord(0, 0)`) holding the same numbers; if the polygon equals itself,
+the copy equals it both ways.  Any number of vertices, any meta / visual. -/
+theorem copy_eq_polygon (t : Tol) (bound next i : Nat) (fa : Fields) (r' : V) (n' : Nat)
+    (j jx jy : Nat) (xs ys : List Num)
+    (hv : fa.get? "vertices" = some (arrPixN j jx jy xs ys))
+    (hm : ∃ v, fa.get? "meta" = some v ∧ isDictNode v = true)
+    (hvis : ∃ v, fa.get? "visual" = some v ∧ isDictNode v = true)
+    (h : copyRegion bound next (.node i (.region "PolygonPixelRegion") fa) [] = .ok (r', n'))
+    (hself : eqRegion t (.node i (.region "PolygonPixelRegion") fa)
+      (.node i (.region "PolygonPixelRegion") fa) = .ok true) :
+    eqRegion t (.node i (.region "PolygonPixelRegion") fa) r' = .ok true ∧
+    eqRegion t r' (.node i (.region "PolygonPixelRegion") fa) = .ok true := by
+  have hci : classInfo? "PolygonPixelRegion" = some polygonInfo := by decide
+  have hkeys : cmpKeys "PolygonPixelRegion" = ["vertices", "meta", "visual"] := by decide
+  unfold copyRegion at h
+  simp only [hci] at h
+  have hor : (([] : List (String × V)) ++
+      (copyArgs bound fa (cmpKeys "PolygonPixelRegion") [] next).1).lookup "origin" = none := by
+    simp only [hkeys, copyArgs, List.lookup_nil, Option.isSome_none, Bool.false_eq_true, if_false,
+      deepcopy, List.nil_append, List.lookup_cons]
+    have e1 : ("origin" == "vertices") = false := by decide
+    have e2 : ("origin" == "meta") = false := by decide
+    have e3 : ("origin" == "visual") = false := by decide
+    simp [e1, e2, e3]
+  obtain ⟨fs', b, n, m, rfl, hgv, hgm, hgvis, huniq⟩ := construct_polygon _ _ r' n' h hor
+  -- the constructor arguments: deep copies of the original's attributes
+  have harg : ∀ key ∈ cmpKeys "PolygonPixelRegion", ∃ k,
+      lookup ([] ++ (copyArgs bound fa (cmpKeys "PolygonPixelRegion") [] next).1) key =
+        (fa.getD key (.atom .none)).shift k := by
+    intro key hk
+    obtain ⟨k, hk'⟩ := copy_arg bound fa [] (cmpKeys "PolygonPixelRegion") next key hk
+    exact ⟨k, by simpa using hk'⟩
+  -- content of the three compared attributes of the copy
+  have hex : ∀ key ∈ cmpKeys "PolygonPixelRegion",
+      ∃ v, fs'.get? key = some v ∧ norm v = norm (fa.getD key (.atom .none)) := by
+    intro key hk
+    have hk' := hk
+    rw [hkeys] at hk'
+    simp only [List.mem_cons, List.not_mem_nil, or_false] at hk'
+    obtain ⟨k, hka⟩ := harg key hk
+    rcases hk' with rfl | rfl | rfl
+    · refine ⟨_, hgv, ?_⟩
+      rw [hka, Fields.getD, hv, Option.getD_some, shift_arrPixN, pixAdd_zero]
+      exact norm_arrPixN _ _ _ _ _ _ _ _
+    · obtain ⟨v, hgv', hd⟩ := hm
+      refine ⟨_, hgm, ?_⟩
+      unfold storeBoth
+      simp only
+      rw [storeMeta_norm _ _ (Or.inl rfl) _ _ _ (by rw [hka, isDictNode_shift, Fields.getD, hgv']; exact hd)
+        (by decide), hka, norm_shift]
+    · obtain ⟨v, hgv', hd⟩ := hvis
+      refine ⟨_, hgvis, ?_⟩
+      unfold storeBoth
+      simp only
+      rw [storeMeta_norm _ _ (Or.inr rfl) _ _ _ (by rw [hka, isDictNode_shift, Fields.getD, hgv']; exact hd)
+        (by decide), hka, norm_shift]
+  obtain ⟨_, _, hall⟩ := eq_true_all_fields t i i _ _ fa fa hself
+  have hpres : ∀ key ∈ cmpKeys "PolygonPixelRegion", ∃ v, fa.get? key = some v := by
+    intro key hk
+    rw [hkeys] at hk
+    simp only [List.mem_cons, List.not_mem_nil, or_false] at hk
+    rcases hk with rfl | rfl | rfl
+    · exact ⟨_, hv⟩
+    · obtain ⟨v, hg, _⟩ := hm; exact ⟨v, hg⟩
+    · obtain ⟨v, hg, _⟩ := hvis; exact ⟨v, hg⟩
+  constructor
+  · rw [eqRegion_node]
+    simp only [isInstance_self, Bool.not_true, Bool.false_eq_true, if_false, ne_eq,
+      not_true_eq_false]
+    apply eqLoop_all
+    intro kv hkv hk
+    obtain ⟨v, hg, hn⟩ := hex kv.1 hk
+    obtain ⟨v1, hg1, hn1⟩ := hall kv hkv hk
+    refine ⟨v, hg, ?_⟩
+    rw [← neV_norm, hn, Fields.getD, hg1, Option.getD_some, neV_norm]
+    exact hn1
+  · rw [eqRegion_node]
+    simp only [isInstance_self, Bool.not_true, Bool.false_eq_true, if_false, ne_eq,
+      not_true_eq_false]
+    apply eqLoop_all
+    intro kv hkv hk
+    have hfirst := huniq kv hkv (by rw [← hkeys]; exact hk)
+    obtain ⟨v, hg, hn⟩ := hex kv.1 hk
+    rw [hfirst] at hg; cases hg
+    obtain ⟨va, hga⟩ := hpres kv.1 hk
+    refine ⟨va, hga, ?_⟩
+    obtain ⟨v1, hg1, hn1⟩ := hall (kv.1, va) (get?_mem fa kv.1 va hga) hk
+    simp only at hg1 hn1
+    rw [hga] at hg1; cases hg1
+    rw [← neV_norm, hn, Fields.getD, hga, Option.getD_some, neV_norm]
+    exact hn1
+
+
+/-- a triangle with meta / visual entries meets the hypotheses of `copy_eq_polygon`. -/
+example :
+    let fa : Fields := .cons "vertices" (arrPixN 1 2 3 [.fin 0, .fin 1, .fin 2] [.fin 0, .fin 1, .fin 0])
+      (.cons "meta" (wMeta 4) (.cons "visual" (wVisual 5) .nil))
+    fa.get? "vertices" = some (arrPixN 1 2 3 [.fin 0, .fin 1, .fin 2] [.fin 0, .fin 1, .fin 0]) ∧
+    (fa.get? "meta" = some (wMeta 4) ∧ isDictNode (wMeta 4) = true) ∧
+    (fa.get? "visual" = some (wVisual 5) ∧ isDictNode (wVisual 5) = true) ∧
+    (copyRegion 10 10 (.node 0 (.region "PolygonPixelRegion") fa) []).toOption.isSome = true ∧
+    eqRegion tolNumpy (.node 0 (.region "PolygonPixelRegion") fa)
+      (.node 0 (.region "PolygonPixelRegion") fa) = .ok true := by
+  decide +kernel
 
 end RegionsVerif.Props.C16
